@@ -93,61 +93,71 @@ impl TimeZone {
     }
 
     pub(crate) fn to_local_time_type(&self, timestamp: i64) -> LocalTimeType {
-        match self.transitions[..] {
-            [] => match &self.extra_rule {
-                Some(rule) => match rule {
-                    TransitionRule::Fixed(local_time_type) => local_time_type.clone(),
-                    TransitionRule::Alternate(altt) => {
-                        let std_end_timestamp = altt.local_std_end_timestamp(timestamp);
-                        let dst_end_timestamp = altt.local_dst_end_timestamp(timestamp);
+        // The footer describes the time from the last transition onward
+        // (all of it if there are no transitions)
+        let after_last_transition = match self.transitions.last() {
+            Some(last) => last.unix_leap_time <= timestamp,
+            None => true,
+        };
+        if after_last_transition {
+            if let Some(rule) = &self.extra_rule {
+                return Self::rule_to_local_time_type(rule, timestamp);
+            }
+        }
 
-                        let (std_end_unix, dst_end_unix) =
-                            match (std_end_timestamp, dst_end_timestamp) {
-                                (Some(std_end), Some(dst_end)) => (
-                                    std_end - altt.std.utoff as i64,
-                                    dst_end - altt.dst.utoff as i64,
-                                ),
-                                // The rule can't be evaluated for this timestamp
-                                _ => return altt.std.clone(),
-                            };
+        // Otherwise the latest transition at or before the timestamp decides.
+        // Before the first transition, the first local time type is used
+        let mut local_time_type_index = 0;
+        for transition in self.transitions.iter().rev() {
+            if transition.unix_leap_time <= timestamp {
+                local_time_type_index = transition.local_time_type_index;
+                break;
+            }
+        }
+        self.local_time_type(local_time_type_index)
+    }
 
-                        match timestamp {
-                            // std end is before dst end
-                            // timestamp is after time changed to dst
-                            timestamp
-                                if std_end_unix < dst_end_unix
-                                    && std_end_unix <= timestamp
-                                    && timestamp < dst_end_unix =>
-                            {
-                                altt.dst.clone()
-                            }
-                            // std is before dst
-                            // timestamp is in std range
-                            _ if std_end_unix < dst_end_unix => altt.std.clone(),
-                            // dst end is before std end
-                            // timestamp is after time changed to std
-                            timestamp
-                                if dst_end_unix < std_end_unix
-                                    && dst_end_unix <= timestamp
-                                    && timestamp < std_end_unix =>
-                            {
-                                altt.std.clone()
-                            }
-                            _ => altt.dst.clone(),
-                        }
+    /// Evaluates the transition rule of the footer for the given timestamp
+    fn rule_to_local_time_type(rule: &TransitionRule, timestamp: i64) -> LocalTimeType {
+        match rule {
+            TransitionRule::Fixed(local_time_type) => local_time_type.clone(),
+            TransitionRule::Alternate(altt) => {
+                let std_end_timestamp = altt.local_std_end_timestamp(timestamp);
+                let dst_end_timestamp = altt.local_dst_end_timestamp(timestamp);
+
+                let (std_end_unix, dst_end_unix) = match (std_end_timestamp, dst_end_timestamp) {
+                    (Some(std_end), Some(dst_end)) => (
+                        std_end - altt.std.utoff as i64,
+                        dst_end - altt.dst.utoff as i64,
+                    ),
+                    // The rule can't be evaluated for this timestamp
+                    _ => return altt.std.clone(),
+                };
+
+                match timestamp {
+                    // std end is before dst end
+                    // timestamp is after time changed to dst
+                    timestamp
+                        if std_end_unix < dst_end_unix
+                            && std_end_unix <= timestamp
+                            && timestamp < dst_end_unix =>
+                    {
+                        altt.dst.clone()
                     }
-                },
-                None => self.local_time_type(0),
-            },
-            _ => {
-                let mut local_time_type_index = 0;
-                for transition in self.transitions.iter().rev() {
-                    if transition.unix_leap_time < timestamp {
-                        local_time_type_index = transition.local_time_type_index;
-                        break;
+                    // std is before dst
+                    // timestamp is in std range
+                    _ if std_end_unix < dst_end_unix => altt.std.clone(),
+                    // dst end is before std end
+                    // timestamp is after time changed to std
+                    timestamp
+                        if dst_end_unix < std_end_unix
+                            && dst_end_unix <= timestamp
+                            && timestamp < std_end_unix =>
+                    {
+                        altt.std.clone()
                     }
+                    _ => altt.dst.clone(),
                 }
-                self.local_time_type(local_time_type_index)
             }
         }
     }
